@@ -660,8 +660,7 @@ func (fr *frame) load(t types.Type, addr Value, pos token.Pos) Value {
 		n := len(p.cells)
 		for _, c := range p.cells {
 			if !isScalarCell(c) {
-				i := w.path.Concretize(p.idx)
-				return copyVal(p.cells[i])
+				return w.loadByClass(p)
 			}
 		}
 		var r *Term
@@ -690,6 +689,53 @@ func (fr *frame) load(t types.Type, addr Value, pos token.Pos) Value {
 		return r
 	}
 	panic(engineError{fmt.Sprintf("load from %T", addr)})
+}
+
+// loadByClass reads cells[idx] for non-scalar cells: the cells are grouped
+// into classes of equal (concrete) values and the path forks over classes,
+// not over indices; the index itself stays symbolic.
+func (w *Worker) loadByClass(p *SymPtr) Value {
+	type class struct {
+		rep  Value
+		idxs []int
+	}
+	var classes []*class
+	byKey := map[string]*class{}
+	for i, c := range p.cells {
+		k, ok := canonKey(c)
+		if !ok {
+			j := w.path.Concretize(p.idx)
+			return copyVal(p.cells[j])
+		}
+		cl := byKey[k]
+		if cl == nil {
+			cl = &class{rep: c}
+			byKey[k] = cl
+			classes = append(classes, cl)
+		}
+		cl.idxs = append(cl.idxs, i)
+	}
+	// smallest classes first so that the big default class needs no condition
+	for i := 0; i < len(classes); i++ {
+		for j := i + 1; j < len(classes); j++ {
+			if len(classes[j].idxs) < len(classes[i].idxs) {
+				classes[i], classes[j] = classes[j], classes[i]
+			}
+		}
+	}
+	for ci, cl := range classes {
+		if ci == len(classes)-1 {
+			break
+		}
+		cond := falseT
+		for _, i := range cl.idxs {
+			cond = tOr(cond, tEq(p.idx, intConst(int64(i))))
+		}
+		if w.path.Branch(cond) {
+			return copyVal(cl.rep)
+		}
+	}
+	return copyVal(classes[len(classes)-1].rep)
 }
 
 func (fr *frame) storeTo(t types.Type, addr Value, v Value, pos token.Pos) {
@@ -821,11 +867,8 @@ func (fr *frame) indexAddr(instr *ssa.IndexAddr) Value {
 				break
 			}
 		}
-		if scalar {
-			return &SymPtr{cells: cells, idx: i}
-		}
-		j := w.path.Concretize(i)
-		return &cells[j]
+		_ = scalar
+		return &SymPtr{cells: cells, idx: i}
 	}
 	panic(engineError{fmt.Sprintf("IndexAddr index %T", idx)})
 }
